@@ -13,7 +13,7 @@
    Round 2 (second half of the file): the public entry points around the running modes and every construct
    that can drop an exception on the paths from them to a model call. *)
 From Coq Require Import List String Bool Arith.
-From PyxelV Require Import Model.Failure Proofs.Failure Proofs.FailureEntry.
+From PyxelV Require Import Model.Failure Proofs.Failure Proofs.FailureEntry Proofs.FailureDebug.
 From PyxelGen Require Import Gen_C09.
 Import ListNotations.
 Open Scope list_scope.
@@ -460,6 +460,44 @@ Proof.
 Qed.
 Print Assumptions C09_deprecated_bag_partial.
 
+(* ---- exposure with debug=True: after every model call the detector is captured, outside the try
+   statement.  `cap` (universally quantified) says which captures fail.  Whatever comes first in execution order
+   - a model that raises, or a capture that fails after a model that returned - ends the exposure: no result, no
+   later call; a model's exception arrives with class, message and (Exception subclasses) its group/model note,
+   the capture's exception exactly as raised.  Without capture failures debug mode behaves like normal mode. ---- *)
+
+Theorem C09_debug_propagates :
+  forall beh cap r pl n pre fe e,
+    (exists post, sched_expo r pl n = pre ++ fe :: post) ->
+    (forall ev, In ev pre -> ev_stop beh cap ev = None) -> ev_stop beh cap fe = Some e ->
+    exposure_dbg beh cap r pl n = (Raise e, pre ++ [fe]) /\
+    (forall c p, ev_fault beh fe = Some (c, p) -> e = exn_of_fault fe c p) /\
+    (forall c p, ev_fault beh fe = None -> cap (ev_run fe) (ev_step fe) (ev_key fe) = Some (c, p) ->
+                 e = raise_of c p).
+Proof.
+  intros beh cap r pl n pre fe e Hs Hpre Hfe.
+  split; [rewrite exposure_dbg_spec, (first_stop_complete beh cap _ pre fe e Hs Hpre Hfe); reflexivity|].
+  unfold ev_stop in Hfe. split.
+  - intros c p Hf. rewrite Hf in Hfe. inversion Hfe. reflexivity.
+  - intros c p Hf Hc. rewrite Hf, Hc in Hfe. inversion Hfe. reflexivity.
+Qed.
+Print Assumptions C09_debug_propagates.
+
+Theorem C09_debug_no_stop_result :
+  forall beh cap r pl n,
+    (forall ev, In ev (sched_expo r pl n) -> ev_stop beh cap ev = None) ->
+    exposure_dbg beh cap r pl n = (Ok (seq 0 n), sched_expo r pl n).
+Proof.
+  intros beh cap r pl n H. rewrite exposure_dbg_spec.
+  rewrite (proj2 (first_stop_none beh cap _) H). reflexivity.
+Qed.
+Print Assumptions C09_debug_no_stop_result.
+
+Theorem C09_debug_conservative :
+  forall beh r pl n, exposure_dbg beh no_capture_failure r pl n = exposure beh r pl n.
+Proof. exact exposure_dbg_no_cap. Qed.
+Print Assumptions C09_debug_conservative.
+
 (* ---- non-vacuity ---- *)
 
 Definition ex_pl : list group :=
@@ -574,4 +612,15 @@ Example C09_example_deprecated_run :
   fst (obs_seq_old ex_beh ex_pl 2 ex_runs) =
   Raise {| cls := KeyError; msg := "'boom'";
            notes := ["This error is raised in group 'photon_collection' at model 'a2' (f)."]%string |}.
+Proof. vm_compute. reflexivity. Qed.
+
+(* debug mode: model a0 returns at step 1 but the capture after it fails: nothing runs after it *)
+Example C09_example_debug_capture :
+  exposure_dbg (beh_of []) (fun r s k => if Nat.eqb s 1 && Nat.eqb k 0 then Some (ValueError, "capture") else None)
+               0 ex_pl 2 =
+  (Raise {| cls := ValueError; msg := "capture"; notes := [] |},
+   map (fun x => match x with (r, s, g, m, k) =>
+                   {| ev_run := r; ev_step := s; ev_group := g; ev_model := m; ev_func := "f"; ev_key := k |} end)
+       [ (0, 0, "photon_collection", "a0", 0); (0, 0, "photon_collection", "a2", 2); (0, 0, "charge_generation", "b0", 3);
+         (0, 1, "photon_collection", "a0", 0) ]%string).
 Proof. vm_compute. reflexivity. Qed.
